@@ -1,6 +1,6 @@
 (* C15 — property theorems only: each restates the full statement and is closed by the lemma proved in Proofs/. *)
 From Coq Require Import ZArith List Bool.
-From NPS Require Import ListAux PySlice NumpySem Scatter BuildIdx XorBroadcast View Index Assign Reduce Scan RaOps Heap Hash HashRun BitArr RLE RLEOps RLE2d DataClass RowsSpec AssignSpec MapSpec Denote RLEIndex GetSlice StartEnd StepProof StepNeg.
+From NPS Require Import ListAux PySlice NumpySem Scatter BuildIdx XorBroadcast View Index Assign Reduce Scan RaOps Heap Hash HashRun BitArr RLE RLEOps RLE2d DataClass RowsSpec AssignSpec MapSpec Denote RLEIndex RLEIndex2 GetSlice StartEnd StepProof StepNeg.
 Import ListNotations.
 Open Scope Z_scope.
 
@@ -15,6 +15,31 @@ Theorem C15_get_position_correct :
        Ok (nth (Z.to_nat (if i <? 0 then n + i else i)) (spec_broadcast A vs ls) d).
 Proof. exact get_position_correct. Qed.
 Print Assumptions C15_get_position_correct.
+
+Theorem C15_get_positions_correct :
+  forall (A : Type) (d : A) (vs : list A) (ls idx : list Z),
+       Forall (fun l : Z => 1 <= l) ls ->
+       length vs = length ls ->
+       ls <> [] ->
+       Forall (fun i : Z => - zsum ls <= i < zsum ls) idx ->
+       get_positions (excl_prefix ls ++ [zsum ls], vs) idx =
+       Ok
+         (map (fun i : Z => nth (Z.to_nat (if i <? 0 then zsum ls + i else i)) (spec_broadcast A vs ls) d)
+            idx).
+Proof. exact get_positions_correct. Qed.
+Print Assumptions C15_get_positions_correct.
+
+Theorem C15_get_bool_mask_correct :
+  forall A : Type,
+       A ->
+       forall (vs : list A) (ls : list Z) (m : list bool),
+       Forall (fun l : Z => 1 <= l) ls ->
+       length vs = length ls ->
+       ls <> [] ->
+       zlen m = zsum ls ->
+       get_bool_mask (excl_prefix ls ++ [zsum ls], vs) m = Ok (mask_filter (spec_broadcast A vs ls) m).
+Proof. exact get_bool_mask_correct. Qed.
+Print Assumptions C15_get_bool_mask_correct.
 
 Theorem C15_get_slice_correct :
   forall (A : Type) (d : A) (eqb : A -> A -> bool),
